@@ -360,10 +360,17 @@ def rule_r3(rep, idxs):
             if n['kind'] in cast.CALL_KINDS:
                 kind, name, did, obj = callee_of(n)
                 if name == 'run' and ((kind == 'method' and obj is not None and 'Processor' in dqt_all(obj)) or
-                                      (kind == 'function' and tu == 'hextb.cpp')):
+                                      (kind == 'function' and tu == 'hextb.cpp') or
+                                      (kind == 'method' and tu == 'hextb.cpp')):
                     sites.append(n)
         if not sites:
-            rep.add('R3', tu + ':run-result', False, pos(m.node), 'main never runs the program')
+            # no call named run(): either the program is never run, or the run loop has been given another name / place
+            others = [callee_of(n)[1] for n in walk(m.body) if n['kind'] in cast.CALL_KINDS and idx.func_by_id.get(callee_of(n)[2]) is not None]
+            if others:
+                rep.undecided('R3', tu + ':run-result', 'main calls no function named run; repository functions it calls: %s -- which of them executes '
+                              'the program is not recognised' % sorted(set(o_ for o_ in others if o_))[:8], pos(m.node))
+            else:
+                rep.add('R3', tu + ':run-result', False, pos(m.node), 'main never runs the program')
             continue
         for k, site in enumerate(sites):
             ok = False
